@@ -9,7 +9,7 @@ L_BIN = "chan_l"
 def _run_shard(args):
     mode, seed, count, outdir = args
     os.makedirs(outdir, exist_ok=True)
-    rc, out, err = sh([harness_bin(L_BIN), mode, str(seed), str(count), outdir], timeout=7200)
+    rc, out, err = sh([harness_bin(L_BIN), mode, str(seed), str(count), outdir], timeout=3600)
     if rc != 0:
         return {"dir": outdir, "error": f"harness rc={rc}: {err[-500:]}"}
     with open(os.path.join(outdir, "req.txt")) as fin, open(os.path.join(outdir, "model.txt"), "w") as fout:
